@@ -6,6 +6,11 @@ updated from the *operation*; after every step the real instance is compared wit
 reported (conn.database, conn.schema, CURRENT_DATABASE(), CURRENT_SCHEMA()) and ground truth (raw DuckDB catalog
 and table contents).
 
+E2: product of statement shapes (the table reference in a CTE body, derived table, subquery, second table of a join,
+UNION branch, source of INSERT..SELECT / CTAS / MERGE, next to a CTE name) x qualification level of every reference x
+the ways a session reaches each kind of context (none, database only, full); each reference is resolved on its own by
+the model and the statement needs a current database / schema if any of its references does.
+
 Not demanded: which schema is current after USE DATABASE (taken from what conn.schema reports; reporters and name
 resolution must then agree with it); error codes other than 90105/90106 (C07's subject).
 """
@@ -705,6 +710,10 @@ def judge(init, hist, c, op, acc, m, m_pre, exp, got, sql, pre_model_key, pre_ct
         elif got[1] != exp[1]:
             acc.violation("C03.resolution", base + ",listing", {"sql": sql, "expected": exp[1], "got": got[1], "ctx": pre_ctx[c]}, rp)
     elif exp[0] == "err":
+        if op[0] == "query" and exp[1] in (90105, 90106):  # homogeneity audit of the statement-shape classes
+            acc.member("C03.must_fail", base, got[0] != "err")
+            if got[0] == "err":
+                acc.member("C03.no_context_error", base + f",want={exp[1]}", (got[2], got[3]) != (exp[1], "22000"))
         if got[0] != "err":
             acc.violation("C03.must_fail", base, {"sql": sql, "ctx": pre_ctx[c], "got": got}, rp)
             diverged = True
@@ -767,7 +776,9 @@ def run(ctx: core.Ctx):
         "BFS over histories of (connection, op) with op from the written-out alphabet (CREATE/DROP DATABASE|SCHEMA|"
         "TABLE|VIEW, INSERT, SELECT at 3 qualification levels, USE DATABASE, USE SCHEMA plain/qualified, existing and "
         "missing names) on 2 connections from 3 initial states; dedupe on model state (catalog + both contexts); each "
-        "transition rebuilt on a fresh instance; non-trivial = transition that changes the model state or must fail"
+        "transition rebuilt on a fresh instance; non-trivial = transition that changes the model state or must fail. "
+        "Plus the product SHAPES x reference levels x SHAPE_CONTEXTS (statement shapes with the table reference in nested / "
+        "joined / source position or beside a CTE name), each judged by the same oracle from init S"
     )
     ctx.assumptions = ["ground truth is read through a raw DuckDB cursor", "state = catalog with row tags + per-connection context"]
     seen = set()
